@@ -1,4 +1,5 @@
 import RbV.Model.Tsv
+import RbV.Lemmas.Csv
 /-! Helper lemmas for the round-trip theorems of C13 (`Thm/C13.lean`). Core Lean only. -/
 namespace RbV.Tsv
 
@@ -134,44 +135,6 @@ end RbV.Tsv
 
 namespace RbV.Tsv
 
-/-! ## files: record lines, comments, blank lines -/
-
-def goodLine (l : List Nat) : Bool := !(l.isEmpty || l.head? == some HASH)
-
-theorem dataLines_fileOf (items : List Item)
-    (hlf : ∀ it ∈ items, LF ∉ it.line)
-    (hrec : ∀ l, Item.record l ∈ items → goodLine l = true) :
-    dataLines (fileOf items) = items.filterMap Item.rec? := by
-  unfold dataLines fileOf
-  rw [splitOn_render _ (by
-    intro l hl
-    obtain ⟨it, hit, rfl⟩ := List.mem_map.mp hl
-    exact hlf it hit)]
-  rw [List.filter_append]
-  have hnil : List.filter (fun l => !(l.isEmpty || l.head? == some HASH)) [([] : List Nat)] = [] := by
-    simp
-  rw [hnil, List.append_nil]
-  clear hlf
-  induction items with
-  | nil => simp
-  | cons it rest ih =>
-    have ih' := ih (fun l hl => hrec l (by simp [hl]))
-    cases it with
-    | record l =>
-      have hg := hrec l (by simp)
-      unfold goodLine at hg
-      simp only [List.map_cons, Item.line, List.filter_cons, hg, if_true, List.filterMap_cons, Item.rec?]
-      rw [ih']
-    | comment t =>
-      simp only [List.map_cons, Item.line, List.filter_cons, List.filterMap_cons, Item.rec?]
-      simp only [List.isEmpty_cons, List.head?_cons, Bool.false_or, beq_self_eq_true, Bool.not_true,
-        Bool.false_eq_true, if_false]
-      exact ih'
-    | blank =>
-      simp only [List.map_cons, Item.line, List.filter_cons, List.filterMap_cons, Item.rec?]
-      simp only [List.isEmpty_nil, Bool.true_or, Bool.not_true, Bool.false_eq_true, if_false]
-      exact ih'
-
 /-! ## joined fields -/
 
 theorem mem_join (sep : Nat) : ∀ (ps : List (List Nat)) (c : Nat), c ∈ join sep ps → c = sep ∨ ∃ p ∈ ps, c ∈ p := by
@@ -193,19 +156,6 @@ theorem mem_join (sep : Nat) : ∀ (ps : List (List Nat)) (c : Nat), c ∈ join 
         · exact Or.inl h'
         · exact Or.inr ⟨x, by simp [hx], hc⟩
 
-/-- a line of at least two fields is a good line when its first field does not start with `#` -/
-theorem goodLine_join (f g : List Nat) (rest : List (List Nat)) (h : f.head? ≠ some HASH) :
-    goodLine (join TAB (f :: g :: rest)) = true := by
-  unfold goodLine
-  simp only [join]
-  cases f with
-  | nil => simp [TAB, HASH]
-  | cons a t =>
-    simp only [List.head?_cons] at h
-    simp only [List.cons_append, List.isEmpty_cons, List.head?_cons, Bool.false_or, Bool.not_eq_true',
-      beq_eq_false_iff_ne, ne_eq]
-    exact h
-
 theorem withCount_uniform {α : Type} (parse : List (List Nat) → Res α) (rs : List (List (List Nat))) (n : Nat)
     (h : ∀ r ∈ rs, r.length = n) : withCount parse rs = rs.map parse := by
   unfold withCount
@@ -221,45 +171,19 @@ theorem withCount_uniform {α : Type} (parse : List (List Nat) → Res α) (rs :
 
 /-! ## BED -/
 
+/-- a BED record of the domain: `k` auxiliary columns, coordinates fit `u64`, and the written line is not taken
+for a comment (the chromosome name does not start with `#` — unless it also contains TAB, `"`, CR or LF, in which case
+the writer quotes it).  Every other byte content of the text columns is allowed. -/
 structure BedOk (k : Nat) (r : BedRec) : Prop where
   cols : r.aux.length = k
-  chromTab : TAB ∉ r.chrom
-  chromLf : LF ∉ r.chrom
-  chromHash : r.chrom.head? ≠ some HASH
-  auxClean : ∀ a ∈ r.aux, TAB ∉ a ∧ LF ∉ a
+  chromHash : hashStart (bedFields r) = false
   startRange : r.start < 2 ^ 64
   stopRange : r.stop < 2 ^ 64
-
-theorem bedFields_clean {k : Nat} {r : BedRec} (h : BedOk k r) : ∀ f ∈ bedFields r, TAB ∉ f ∧ LF ∉ f := by
-  intro f hf
-  unfold bedFields at hf
-  simp only [List.mem_cons] at hf
-  rcases hf with rfl | rfl | rfl | hf
-  · exact ⟨h.chromTab, h.chromLf⟩
-  · exact ⟨toDec_no _ _ (by decide), toDec_no _ _ (by decide)⟩
-  · exact ⟨toDec_no _ _ (by decide), toDec_no _ _ (by decide)⟩
-  · exact h.auxClean f hf
 
 theorem parseBedFields_bedFields (r : BedRec) (h1 : r.start < 2 ^ 64) (h2 : r.stop < 2 ^ 64) :
     parseBedFields (bedFields r) = .ok r := by
   unfold bedFields parseBedFields
   simp only [readU64_toDec _ h1, readU64_toDec _ h2]
-
-theorem bedLine_split {k : Nat} {r : BedRec} (h : BedOk k r) : splitOn TAB (bedLine r) = bedFields r := by
-  unfold bedLine
-  apply splitOn_join
-  · simp [bedFields]
-  · intro p hp; exact (bedFields_clean h p hp).1
-
-theorem bedLine_noLF {k : Nat} {r : BedRec} (h : BedOk k r) : LF ∉ bedLine r := by
-  intro hc
-  rcases mem_join TAB _ LF hc with h' | ⟨p, hp, hcp⟩
-  · simp [LF, TAB] at h'
-  · exact (bedFields_clean h p hp).2 hcp
-
-theorem bedLine_good {k : Nat} {r : BedRec} (h : BedOk k r) : goodLine (bedLine r) = true := by
-  unfold bedLine bedFields
-  exact goodLine_join _ _ _ h.chromHash
 
 end RbV.Tsv
 
@@ -435,30 +359,23 @@ namespace RbV.Tsv
 
 structure DialectOk (d : Dialect) : Prop where
   vdelimKV : d.repeatKeys = false → isKV d d.vdelim = true
-  delimClean : d.delim ≠ TAB ∧ d.delim ≠ LF
-  termClean : d.term ≠ TAB ∧ d.term ≠ LF
-  vdelimClean : d.vdelim ≠ TAB ∧ d.vdelim ≠ LF
 
-theorem gff3_ok : DialectOk gff3 := by
-  refine ⟨?_, ?_, ?_, ?_⟩ <;> decide
+theorem gff3_ok : DialectOk gff3 := ⟨by decide⟩
 
-theorem gff2_ok : DialectOk gff2 := by
-  refine ⟨?_, ?_, ?_, ?_⟩ <;> decide
+theorem gff2_ok : DialectOk gff2 := ⟨by decide⟩
 
-/-- an attribute key of the domain: non-empty, free of the dialect's delimiters, not starting with a blank,
-no quote character at either end, no line feed -/
+/-- an attribute key of the domain: non-empty, free of the dialect's delimiters and TAB, not starting with a blank,
+no quote character at either end -/
 structure KeyOk (d : Dialect) (k : List Nat) : Prop where
   tok : TokOk d k
   noSpace : k.head? ≠ some SPACE
   noQuote : NoQuoteEnds k
-  noLf : LF ∉ k
 
 /-- an attribute value of the domain -/
 structure ValOk (d : Dialect) (v : List Nat) : Prop where
   tok : TokOk d v
   noVdelim : d.vdelim ∉ v
   noQuote : NoQuoteEnds v
-  noLf : LF ∉ v
 
 def AttrsOk (d : Dialect) (g : List (List Nat × List (List Nat))) : Prop :=
   ∀ kv ∈ g, KeyOk d kv.1 ∧ kv.2 ≠ [] ∧ ∀ v ∈ kv.2, ValOk d v
@@ -544,65 +461,17 @@ namespace RbV.Tsv
 
 /-! ## GFF record line -/
 
+/-- a GFF record of the domain: the written line is not taken for a comment (see `BedOk`), coordinates fit `u64`,
+phase ∈ {`.`,0,1,2}, attributes of the domain.  seqname, source, type, score and strand are arbitrary byte strings. -/
 structure GffOk (d : Dialect) (r : GffRec) : Prop where
-  seqClean : TAB ∉ r.seqname ∧ LF ∉ r.seqname
-  seqHash : r.seqname.head? ≠ some HASH
-  srcClean : TAB ∉ r.source ∧ LF ∉ r.source
-  typClean : TAB ∉ r.ftype ∧ LF ∉ r.ftype
-  scoreClean : TAB ∉ r.score ∧ LF ∉ r.score
-  strandClean : TAB ∉ r.strand ∧ LF ∉ r.strand
+  seqHash : hashStart (gffFields d r) = false
   startRange : r.start < 2 ^ 64
   stopRange : r.stop < 2 ^ 64
   phaseRange : ∀ n, r.phase = some n → n < 3
   attrsOk : AttrsOk d r.attrs
 
-theorem isKV_ne_tab (d : Dialect) (c : Nat) (h : isKV d c = true) : c ≠ TAB := by
-  unfold isKV at h
-  simp only [Bool.and_eq_true, bne_iff_ne, ne_eq] at h
-  exact h.2
-
-theorem writeAttrs_clean (d : Dialect) (hd : DialectOk d) (g : List (List Nat × List (List Nat)))
-    (hg : AttrsOk d g) : TAB ∉ writeAttrs d g ∧ LF ∉ writeAttrs d g := by
-  have key : ∀ c ∈ writeAttrs d g, c ≠ TAB ∧ c ≠ LF := by
-    intro c hc
-    unfold writeAttrs at hc
-    rcases mem_join _ _ _ hc with h | ⟨p, hp, hcp⟩
-    · rw [h]; exact hd.termClean
-    · obtain ⟨s, hs, rfl⟩ := List.mem_map.mp hp
-      unfold segments at hs
-      obtain ⟨kv, hkv, hmem⟩ := List.mem_flatMap.mp hs
-      obtain ⟨hk, _, hv⟩ := hg kv hkv
-      have hkey : ∀ c ∈ kv.1, c ≠ TAB ∧ c ≠ LF := fun c hc =>
-        ⟨isKV_ne_tab d c (hk.tok.kv c hc), fun e => hk.noLf (e ▸ hc)⟩
-      have hval : ∀ v ∈ kv.2, ∀ c ∈ v, c ≠ TAB ∧ c ≠ LF := fun v hvm c hc =>
-        ⟨isKV_ne_tab d c ((hv v hvm).tok.kv c hc), fun e => (hv v hvm).noLf (e ▸ hc)⟩
-      unfold renderSeg at hcp
-      simp only [List.mem_append, List.mem_cons] at hcp
-      by_cases hrep : d.repeatKeys = true
-      · simp only [hrep, if_true, List.mem_map] at hmem
-        obtain ⟨v, hvm, rfl⟩ := hmem
-        rcases hcp with h | h | h
-        · exact hkey c h
-        · rw [h]; exact hd.delimClean
-        · exact hval v hvm c h
-      · have hrep' : d.repeatKeys = false := by simpa using hrep
-        simp only [hrep', Bool.false_eq_true, if_false, List.mem_singleton] at hmem
-        subst hmem
-        rcases hcp with h | h | h
-        · exact hkey c h
-        · rw [h]; exact hd.delimClean
-        · rcases mem_join _ _ _ h with h' | ⟨v, hvm, hcv⟩
-          · rw [h']; exact hd.vdelimClean
-          · exact hval v hvm c hcv
-  exact ⟨fun h => (key TAB h).1 rfl, fun h => (key LF h).2 rfl⟩
-
 theorem toDec_small (n : Nat) (h : n < 10) : toDec n = [48 + n] := by
   unfold toDec; simp [h]
-
-theorem phaseStr_clean (p : Option Nat) : TAB ∉ phaseStr p ∧ LF ∉ phaseStr p := by
-  cases p with
-  | none => simp [phaseStr, TAB, LF]
-  | some n => exact ⟨toDec_no _ _ (by decide), toDec_no _ _ (by decide)⟩
 
 theorem readPhase_phaseStr (p : Option Nat) (h : ∀ n, p = some n → n < 3) : readPhase (phaseStr p) = .ok p := by
   cases p with
@@ -615,44 +484,11 @@ theorem readPhase_phaseStr (p : Option Nat) (h : ∀ n, p = some n → n < 3) : 
       rw [hd]; simp; omega
     simp only [hne, if_false, parseDec_toDec, if_true, hn]
 
-theorem gffFields_clean {d : Dialect} (hd : DialectOk d) {r : GffRec} (h : GffOk d r) :
-    ∀ f ∈ gffFields d r, TAB ∉ f ∧ LF ∉ f := by
-  intro f hf
-  unfold gffFields at hf
-  simp only [List.mem_cons, List.not_mem_nil, or_false] at hf
-  rcases hf with rfl | rfl | rfl | rfl | rfl | rfl | rfl | rfl | rfl
-  · exact h.seqClean
-  · exact h.srcClean
-  · exact h.typClean
-  · exact ⟨toDec_no _ _ (by decide), toDec_no _ _ (by decide)⟩
-  · exact ⟨toDec_no _ _ (by decide), toDec_no _ _ (by decide)⟩
-  · exact h.scoreClean
-  · exact h.strandClean
-  · exact phaseStr_clean _
-  · exact writeAttrs_clean d hd _ h.attrsOk
-
 theorem parseGffFields_gffFields {d : Dialect} (hd : DialectOk d) {r : GffRec} (h : GffOk d r) :
     parseGffFields d (gffFields d r) = .ok r.asRead := by
   unfold gffFields parseGffFields
   simp only [readU64_toDec _ h.startRange, readU64_toDec _ h.stopRange, readPhase_phaseStr _ h.phaseRange,
     parseAttrs_writeAttrs d hd _ h.attrsOk, GffRec.asRead]
-
-theorem gffLine_split {d : Dialect} (hd : DialectOk d) {r : GffRec} (h : GffOk d r) :
-    splitOn TAB (gffLine d r) = gffFields d r := by
-  unfold gffLine
-  apply splitOn_join
-  · simp [gffFields]
-  · intro p hp; exact (gffFields_clean hd h p hp).1
-
-theorem gffLine_noLF {d : Dialect} (hd : DialectOk d) {r : GffRec} (h : GffOk d r) : LF ∉ gffLine d r := by
-  intro hc
-  rcases mem_join TAB _ LF hc with h' | ⟨p, hp, hcp⟩
-  · simp [LF, TAB] at h'
-  · exact (gffFields_clean hd h p hp).2 hcp
-
-theorem gffLine_good {d : Dialect} {r : GffRec} (h : GffOk d r) : goodLine (gffLine d r) = true := by
-  unfold gffLine gffFields
-  exact goodLine_join _ _ _ h.seqHash
 
 theorem valuesOf_map_same (k : List Nat) : ∀ (vs : List (List Nat)), valuesOf (vs.map fun v => (k, v)) k = vs := by
   intro vs
@@ -731,10 +567,6 @@ theorem splitOn_append_sep' (sep : Nat) (a b : List Nat) :
       rw [ih]; rfl
     · rw [List.cons_append, splitOn_cons_ne sep c _ hc, splitOn_cons_ne sep c r hc, ih,
         consFirst_append c _ _ (splitOn_ne_nil sep r)]
-
-theorem rows_append (a b : List Nat) : rows (a ++ LF :: b) = rows a ++ rows b := by
-  unfold rows dataLines
-  rw [splitOn_append_sep', List.filter_append, List.map_append]
 
 theorem withCount_prefix {α : Type} (parse : List (List Nat) → Res α) (r1 r2 : List (List (List Nat))) :
     (withCount parse (r1 ++ r2)).take (withCount parse r1).length = withCount parse r1 := by
